@@ -260,6 +260,26 @@ Example C07_fromLazy_nonvacuous :
   from_lazy 3 (Leaf 3) [(1, Leaf 0, 0); (6, Leaf 4, 1)] = [(1, Leaf 0); (6, Leaf 4)].
 Proof. vm_compute. split; reflexivity. Qed.
 
+(* histories: the fiber a reference traversal leaves behind (grown, possibly past its last
+   coordinate) is again ascending with ascending sub-fibers, holds exactly [spec_post], and its
+   active range is computed from the content it has now (nothing an earlier read saw survives) —
+   so every clause above applies verbatim to a traversal that follows on the same object.
+   ([model_op]/[spec_op] of [OpGrow] are these compositions; C07_model_meets_spec covers them.) *)
+Theorem C07_history : forall f lo hi step,
+  ssorted (map fst (f_es f)) = true -> pay_sorted (f_es f) ->
+  let f' := set_es f (snd (iter_range_shape_ref f lo hi step)) in
+  f_es f' = spec_post (f_d f) (f_es f) (zrange lo hi step) /\
+  ssorted (map fst (f_es f')) = true /\ pay_sorted (f_es f') /\
+  get_active f' = match f_active f with
+                  | Some a => a
+                  | None => (0, match f_shape f with
+                                | Some s => if s =? 0 then est_shape (f_es f') else s
+                                | None => est_shape (f_es f')
+                                end)
+                  end.
+Proof. exact history_full. Qed.
+Print Assumptions C07_history.
+
 (* the faithful model's observation meets the property oracle for every well-formed case *)
 Theorem C07_model_meets_spec : forall c,
   c07_wf c = true -> holds c07_checker c (model c07_checker c) = true.
@@ -277,6 +297,7 @@ Example C07_nonvacuous :
                         OpIter None; OpCoShape false; OpCoRangeShape 0 8 2 true;
                         OpProject (-1) 9 (Some (3, 8)) None; OpProject 2 0 (Some (5, 20)) (Some 2);
                         OpPrune {| p_a := 1; p_b := 0; p_e := 0; p_m := 2; p_th := 1 |} (Some 1);
-                        OpWindow 1 (-3) None (Some 0) (Some 4)] |} in
+                        OpWindow 1 (-3) None (Some 0) (Some 4);
+                        OpGrow 6 12 2 (OpActiveShape false); OpGrow 0 11 1 (OpGrow 11 13 1 (OpActive (Some 1)))] |} in
   c07_wf c = true /\ holds c07_checker c (model c07_checker c) = true.
 Proof. vm_compute. split; reflexivity. Qed.
